@@ -131,8 +131,57 @@ def datafile_case(ctx, case):
     sig = dict(kind="datafile", problem=prob)
     try:
         f = os.path.join(d, "sub", f"{prob}{n}.npz")
-        generate_dataset(filename=f, problem=prob, dataset_size=N, graph_sizes=[n], seed=seed, overwrite=True, **(dict(data_distribution=case.get("dist", "dist")) if prob == "op" else {}))
+        dist = case.get("dist", "dist") if prob == "op" else None
+        if prob == "mdpp":
+            return _mdpp_datafile(ctx, case, d, sig)
+        if case.get("default_path"):
+            # no explicit file name: <data_dir>/<problem>/<problem>[_<distribution>]<size>_<name>_seed<seed>.npz (documented layout)
+            generate_dataset(data_dir=d, name=case["default_path"], problem=prob, dataset_size=N, graph_sizes=[n], seed=seed, overwrite=True, **(dict(data_distribution=dist) if prob == "op" else {}))
+            f = os.path.join(d, prob, "{}{}{}_{}_seed{}.npz".format(prob, f"_{dist}" if dist else "", n, case["default_path"], seed))
+            ctx.count("c19_default_path_files")
+            if not os.path.isfile(f):
+                ctx.evaluation()
+                ctx.violation(dict(sig, q="default_path"), f"generate_dataset(data_dir, name) did not write {os.path.relpath(f, d)} (found {sorted(os.listdir(os.path.join(d, prob))) if os.path.isdir(os.path.join(d, prob)) else 'no directory'})", None)
+                return
+            # a second call without overwrite must keep the file (documented: existing files are skipped)
+            before = open(f, "rb").read()
+            generate_dataset(data_dir=d, name=case["default_path"], problem=prob, dataset_size=N + 1, graph_sizes=[n], seed=seed, overwrite=False, **(dict(data_distribution=dist) if prob == "op" else {}))
+            if open(f, "rb").read() != before:
+                ctx.evaluation()
+                ctx.violation(dict(sig, q="overwritten"), "generate_dataset(overwrite=False) replaced an existing dataset file", None)
+                return
+        elif prob == "vrp" and case.get("capacity_override"):
+            # generate_env_data with a capacity table override (documented argument of generate_vrp_data)
+            from rl4co.data.generate_data import generate_env_data
+
+            np.random.seed(seed)
+            data = generate_env_data("vrp", N, n, {n: float(case["capacity_override"])})
+            os.makedirs(os.path.dirname(f), exist_ok=True)
+            np.savez(f, **data)
+            ctx.count("c19_capacity_override_files")
+            ctx.evaluation()
+            if not np.all(data["capacity"] == np.float32(case["capacity_override"])):
+                ctx.violation(dict(sig, q="capacity_override"), f"generate_vrp_data(capacities={{{n}: {case['capacity_override']}}}) wrote capacity {data['capacity'][:3]}", None)
+                return
+        else:
+            generate_dataset(filename=f, problem=prob, dataset_size=N, graph_sizes=[n], seed=seed, overwrite=True, **(dict(data_distribution=dist) if prob == "op" else {}))
         raw = dict(np.load(f))
+        if prob == "op":
+            # documented prize rules (Fischetti et al.): const = 1, unif = k/100 with k in 1..100, dist = (1 + floor(99 d/dmax))/100
+            pz = raw["prize"].astype("float64")
+            ctx.evaluation()
+            ctx.count("c19_op_prize_rule_checks")
+            if dist == "const":
+                okp = bool(np.all(pz == 1.0))
+            elif dist == "unif":
+                okp = bool(np.all(np.abs(pz * 100 - np.round(pz * 100)) < 1e-4) and pz.min() >= 0.01 - 1e-6 and pz.max() <= 1.0 + 1e-6 and len(np.unique(pz)) > 1)
+            else:
+                dd = np.linalg.norm(raw["depot"][:, None, :].astype("float64") - raw["locs"].astype("float64"), axis=-1)
+                want = (1 + np.floor(dd / dd.max(-1, keepdims=True) * 99 + 1e-9)) / 100.0
+                okp = bool(np.all(np.abs(pz - want) <= 0.0100001))  # one bin of slack for float32 coordinates at a bin edge
+            if not okp:
+                ctx.violation(dict(sig, q="op_prize_rule", dist=dist), f"OP dataset prizes do not follow the '{dist}' rule (e.g. {pz[0][:5].tolist()})", None)
+                return
         if prob == "vrp" and case.get("merged"):
             # a merged dataset file (documented format, capacity stored per instance): the second half comes from a source
             # with another vehicle capacity; integer demands 1..9 stay below both
@@ -194,6 +243,49 @@ def datafile_case(ctx, case):
         ctx.nontrivial_case(dict(c=case))
     finally:
         shutil.rmtree(d, ignore_errors=True)
+
+
+def _mdpp_datafile(ctx, case, d, sig):
+    """generate_dataset(problem='mdpp') -> MDPPEnv.dataset(filename): content preserved, and episodes on the loaded instances only
+    place decaps on cells the file marks available (never on a probing port)."""
+    import numpy as np
+    from torch.utils.data import DataLoader
+
+    from rl4co.data.generate_data import generate_dataset
+
+    N, seed = case["N"], case["s"]
+    f = os.path.join(d, "sub", "mdpp10.npz")
+    generate_dataset(filename=f, problem="mdpp", dataset_size=N, graph_sizes=[10], seed=seed, overwrite=True)
+    raw = dict(np.load(f))
+    env = envzoo.make_other(dict(env="mdpp", n=100, size=10, kmin=1, kmax=50, decaps=20, reward_type="minmax"))
+    ds = env.dataset(filename=f)
+    td = list(DataLoader(ds, batch_size=N, collate_fn=ds.collate_fn))[0]
+    ctx.evaluation()
+    ctx.count("c19_datafile_loads")
+    ctx.count("c19_mdpp_files")
+    for k, v in raw.items():
+        got, want = td[k], torch.from_numpy(v)
+        if got.shape != want.shape or got.dtype != want.dtype or not torch.equal(got, want):
+            ctx.violation(dict(sig, q="content", key=k), f"key {k} read through MDPPEnv.dataset differs from the file content", None)
+            return
+    avail, probes = raw["action_mask"], raw["probe"]
+    if bool((avail & probes).any()):
+        ctx.violation(dict(sig, q="mdpp_probe_available"), "generated MDPP file marks a probing port as available", None)
+        return
+    g = torch.Generator().manual_seed(seed)
+    ep = run_episode(env, td.clone(), (["uniform", "first_true", "last_true"] * N)[:N], g, max_steps=200)
+    if ep.error is not None or hasattr(ep, "dead_end_at") or any(ep.finish_step(b) is None for b in range(N)):
+        ctx.violation(dict(sig, q="unusable", env="mdpp"), f"episode on file-loaded MDPP instances does not complete ({ep.error})", None)
+        return
+    for b in range(N):
+        acts = ep.executed(b)
+        ctx.evaluation()
+        ctx.count("c19_datafile_rows")
+        bad = [a for a in acts if not avail[b][a] or probes[b][a]]
+        if bad or len(set(acts)) != len(acts):
+            ctx.violation(dict(sig, q="semantics", env="mdpp"), f"file-loaded MDPP instance: decaps on unavailable cells / probing ports {bad} or repeated ({acts})", None)
+            return
+    ctx.nontrivial_case(dict(c=case))
 
 
 def schedfile_case(ctx, case):
